@@ -29,7 +29,8 @@ def oracle(p):
             k = rf[0]
             sid = rf[1] if k in ('Headers', 'Data', 'WindowUpdate', 'RstStream', 'PushPromise') else None
             decoded = k not in ('Headers', 'PushPromise') or rf[-1][0] == 'Decoded'
-            if sid in ours and decoded and not (k == 'Data' and rf[3] > prev[6][1]):
+            # (a frame above MAX_FRAME_SIZE, or DATA beyond the connection window, is the peer's violation whatever the stream)
+            if sid in ours and decoded and not (k == 'Data' and (rf[3] > prev[6][1] or rf[3] > prev[7][1])):
                 if parts[0][0] != 0:
                     V('a frame for a stream the application had reset caused an exception (connection error)', {'frame': k, 'stream': sid, 'outcome': parts[0]})
                 else:
